@@ -32,7 +32,7 @@ def run(tier, seed):
     n2, _ = common.validate_f(chk, {s: os.path.join(sw, "sweeps_%d.ndjson" % s) for s in (44, 65, 87)}, nproc=6, chunks_per_set=2, key_of=lambda m: "sampler:" + m["event"].get("fn", m["ev"]))
     n += n2
     chk.leg("trace validation (Layer F judge)", events=n, full_recomputations_per_set=nfull + nacvp,
-            factoring_grid="(mode x |ctx| x |M|), all |ctx| in 0..255 in thorough" )
+            factoring_grid="(mode x |ctx| x |M|): every |ctx| in 0..255 with an empty, a one-byte and a pre-hashed message in both tiers; all four modes per length in thorough" )
     chk.cov["exhaustive"] = False
     chk.assumptions += ["SHAKE/SHA-2 computed by the sha2/sha3 crates through the hash helper",
                         "Sign = Sign_internal o FormatMsg (FIPS 204 Algorithms 2 and 4), used to carry the (mode, ctx, M) grid through the deprecated internal interface"]
